@@ -19,7 +19,7 @@ use vcore::{Run, Tier, Violation, util};
 use vstore::fix::{Wrap, build, payload};
 use vstore::hist::apply_tracked;
 use vstore::ops::{Book, Mode, Op, alphabet, applicable};
-use vstore::tamper::{chunk_nonce, get_field, harness_cipher, open_chunk_with};
+use vstore::tamper::{chunk_nonce, get_field, harness_cipher, open_chunk_under, open_chunk_with};
 
 const WINDOW: usize = 8;
 
@@ -186,11 +186,27 @@ fn run_history(wrap: Wrap, hist: &[Op], clock: u64, want_sample: bool) -> HistOu
                 // the re-derived nonce must be the one the chunk was really
                 // encrypted under: open it with the harness' own cipher
                 let tag_bytes: &[u8] = if let cbor2::Value::Bytes(t) = tag { t } else { &[] };
+                let mut real_nonce_idx = i as u64;
                 match open_chunk_with(&cipher, &ct[a..b], &n, cs, i as u64, tag_bytes) {
-                    None => out.violations.push(viol(
-                        "chunk-not-under-derived-nonce",
-                        format!("{path}: chunk {i} of {gen_path} does not open under nonce n+{i} and the documented chunk AAD"),
-                    )),
+                    None => {
+                        // which counter value was it really encrypted under? try the
+                        // index truncated to 8 / 16 / 32 bits, so that the nonce that
+                        // was REALLY used enters the set and a repeat shows there too
+                        let i64_ = i as u64;
+                        for alt in [i64_ & 0xff, i64_ & 0xffff, i64_ & 0xffff_ffff] {
+                            if alt != i64_ && open_chunk_under(&cipher, &ct[a..b], &n, cs, i64_, alt, tag_bytes).is_some() {
+                                real_nonce_idx = alt;
+                                break;
+                            }
+                        }
+                        out.violations.push(viol(
+                            "chunk-not-under-derived-nonce",
+                            format!(
+                                "{path}: chunk {i} of {gen_path} does not open under nonce n+{i} and the documented chunk AAD{}",
+                                if real_nonce_idx != i64_ { format!("; it opens under n+{real_nonce_idx}") } else { String::new() }
+                            ),
+                        ));
+                    }
                     Some(plain) => {
                         out.chunks_opened += 1;
                         if !all_plains.iter().any(|p| p.len() == ct.len() && p[a..b] == plain[..]) {
@@ -201,7 +217,7 @@ fn run_history(wrap: Wrap, hist: &[Op], clock: u64, want_sample: bool) -> HistOu
                         }
                     }
                 }
-                let nonce = chunk_nonce(&n, i as u64);
+                let nonce = chunk_nonce(&n, real_nonce_idx);
                 let mut x = [0u8; 16];
                 x[..12].copy_from_slice(&nonce);
                 out.nonces.push((u128::from_le_bytes(x), util::fnv64(&h)));
